@@ -340,7 +340,7 @@ var All = []*Adapter{
 			sh.Sig, sh.Crypto, sh.Cert, sh.Excess = 7, 4, "key", 0
 		}
 		sh.U = []uint64{r.Uint64() >> 20, 0}
-		if r.Chance(1, 8) {
+		if r.Chance(1, 4) {
 			sh.U[1] = uint64(r.PickInt(1, 1, 2, 3, 8, 255, r.Intn(256)))
 		}
 		na := r.PickInt(0, 1, 1, 2, 4)
@@ -353,6 +353,11 @@ var All = []*Adapter{
 		sh.Opts, sh.Unsorted = Options(r, 8)
 		if r.Chance(1, 25) {
 			sh.Opts = ManyOptions(r)
+		}
+		if sh.U[1] != 0 && r.Chance(1, 2) {
+			// a declared peer count and, where the peer hashes would be, option
+			// bytes that read as (empty) structure
+			sh.Opts = append(sh.Opts, [2]string{"zz", strings.Repeat("\x00", r.PickInt(97, 200, 255))})
 		}
 		return sh
 	}, Arg: noArg, Parse: func(b []byte, _ int) Result {
